@@ -11,7 +11,7 @@ for meta in sorted(glob.glob(os.path.join(HERE, "seeded", "*", "meta.json"))):
     m = json.load(open(meta))
     entries.append((os.path.join(os.path.dirname(meta), "patch.diff"), m["expect"], m.get("needs", "")))
 # behaviour-preserving changes written by independent sub-agents: every listed check must stay silent
-for meta in sorted(glob.glob(os.path.join(HERE, "benign", "*", "meta.json"))):
+for meta in (sorted(glob.glob(os.path.join(HERE, "benign", "*", "meta.json"))) if "benign" in flt else []):   # long: only on request (./selftest benign)
     m = json.load(open(meta))
     for pf in m["patches"]:
         entries.append((os.path.join(os.path.dirname(meta), pf), {c: "silent" for c in m["checks"]}, m.get("note", "")))
